@@ -67,6 +67,9 @@ impl Stats {
     /// count what actually happened in one history
     pub fn observe(&mut self, case: &Case, h: &History) {
         self.executions += 1;
+        if h.clock_reads > 0 {
+            Stats::bump(&mut self.faults_fired, "clock_reads_served", h.clock_reads);
+        }
         let mut nontrivial = false;
         let mut avail_hint = 0usize;
         let _ = &mut avail_hint;
